@@ -179,6 +179,22 @@ CLAIMED["C13"] = dict(
          "only); options sub-dictionaries.",
     technique="Coq proof of codec logic and of the coverage test + translator-regenerated key table + dictionary/JSON round-trip differential")
 
+CLAIMED["C07"] = dict(
+    text="Proof over a model whose smoothing coefficients are REGENERATED from the source on every run (cubic_spline, constants and the "
+         "coefficient chain of pdd_poly_coeffs_param -> Gen/Formulas.v): the smoothing cubic interpolates values and slopes at both ends; "
+         "the delivered fraction is slope*(p-Pmin) (|.| <= 1e-11 |p-Pmin|) at or below Pmin, 1 + 1e-11 (p-Preq) above Preq, the power law "
+         "((p-Pmin)/(Preq-Pmin))^e between the two 5 cm bands; it is C0 and C1 at the four knots for every exponent; the matched slope is "
+         "the true derivative of the power law (Coquelicot); it is non-decreasing outside the bands (partial: inside the bands monotonicity "
+         "is only checked per case); and it provably JUMPS when Preq-Pmin < 0.1 m, which includes the default options (known finding). "
+         "Ties decided inside coqc by interval arithmetic: the residual of the real pdd row of every junction (dumped conditional "
+         "expression with the parameter values the code computed) equals d - D*pdd_frac(effective Pmin, Preq, exponent) over a sweep of "
+         "heads, for global options and per-junction overrides incl. 0; reported (pressure, demand) pairs of PDD runs lie on the curve.",
+    ref="DESIGN.md section 5 C07",
+    note="Trusted: Coq kernel; stdlib real axioms + classic (Coquelicot); coq-interval; translators chains.py/pyexpr.py; the row dumper. "
+         "Modelled not verified: binary64 rounding incl. cancellation in the cubic coefficients (2e-6 on the fraction). Cases the interval "
+         "tactic cannot decide in 40 s are cross-checked with a float transcription of the model and counted as undecided, never as discharged.",
+    technique="Coq proof over a translator-regenerated model (field, Coquelicot derivative, interval witness) + interval-certified differential on the real constraint rows")
+
 NOT_YET = {
 }
 
